@@ -1,7 +1,7 @@
 (* PV.C18.Properties — the property theorems of C18 and nothing else.
    Part 1: the enumerators (partitions / subsets / all_combinations / exhaustive). *)
 From Coq Require Import List Bool Arith ZArith Permutation Sorted.
-From PV Require Import C18.Model C18.Spec C18.Proofs C18.ProofsStep C18.MflModel C18.MflSpec C18.MflProofs.
+From PV Require Import C18.Model C18.Spec C18.Proofs C18.ProofsStep C18.MflModel C18.MflSpec C18.MflProofs C18.MflParser C18.MflParserProofs C18.ProofsIiv.
 Import ListNotations.
 
 (* ---------------------------------------------------------------- partitions.py *)
@@ -343,3 +343,90 @@ Theorem lnt_peripherals_drug_only :
       ((exists c, In (c, s_DRUG) (E_pairs [] w_periph_modes a) /\ In (c, s_DRUG) (E_pairs [] w_periph_modes b)) -> items = []) /\
       (forall i, In i items -> exists n, i = LKey [AS s_PERIPHERALS; AI (Z.of_N n)] /\ In (n, s_DRUG) (E_pairs [] w_periph_modes b)).
 Proof. exact lnt_peripherals_spec. Qed.
+
+(* ---------------------------------------------------------------- reference parser for the MFL text *)
+(* For every canonical statement list -- any number of statements NAME[?](args) with non-empty argument lists, every
+   argument `*`, `@NAME`, or a list of numbers / well-formed words of any length -- the reference parser reads the
+   printed text (stringify.py's rules: one element bare, consecutive integers a..b, otherwise [a,b,...]; `;` between
+   statements) back to exactly that list: lexer and parser together, no bound on sizes. *)
+Theorem mfl_parse_print :
+  forall ss : list MflParser.stmt, canonical ss = true -> parse_ref (stringify ss) = Some ss.
+Proof. exact mfl_parse_print_lemma. Qed.
+
+(* ... hence the elaborated reading (arity, allowed names, default attributes as MFLInterpreter fills them) of the
+   printed text is the elaboration of the statements themselves *)
+Theorem mfl_parse_print_elaborated :
+  forall ss : list MflParser.stmt, canonical ss = true -> parse_mfl (stringify ss) = elaborate_all ss.
+Proof. exact parse_mfl_print_lemma. Qed.
+
+(* ---------------------------------------------------------------- iivsearch / iovsearch brute-force candidates *)
+(* td_exhaustive_block_structure: the candidates are numbered from 1+offset and are exactly the partitions of the eta
+   names other than the base model's own structure ... *)
+Theorem iiv_block_structures_exact :
+  forall (A : Type) (cmp : A -> A -> comparison) (names : list A) (base : list (list A)) (offset : nat) (p : list (list A)),
+    In p (map snd (block_structure_candidates cmp names base offset)) <->
+    In p (partitions cmp names) /\ is_rv_block_structure cmp base p = false.
+Proof. exact block_candidates_exact. Qed.
+
+Theorem iiv_block_structures_numbering :
+  forall (A : Type) (cmp : A -> A -> comparison) (names : list A) (base : list (list A)) (offset : nat),
+    map fst (block_structure_candidates cmp names base offset) =
+      seq (1 + offset) (length (block_structure_candidates cmp names base offset)) /\
+    map snd (block_structure_candidates cmp names base offset) =
+      filter (fun p => negb (is_rv_block_structure cmp base p)) (partitions cmp names).
+Proof. exact block_candidates_split. Qed.
+
+(* ... every block structure (equivalence relation on distinct eta names, any number of etas) is the base structure or
+   a candidate, and it is a candidate at most once *)
+Theorem iiv_block_structures_complete_once :
+  forall (A : Type) (cmp : A -> A -> comparison) (names : list A) (base : list (list A)) (offset : nat) (R : A -> A -> bool),
+    NoDup names -> equiv_on names R ->
+    exists p, represents p names R /\
+      ((In p (partitions cmp names) /\ is_rv_block_structure cmp base p = true) \/
+       In p (map snd (block_structure_candidates cmp names base offset))) /\
+      (forall q, In q (map snd (block_structure_candidates cmp names base offset)) -> part_equiv q p -> q = p).
+Proof. exact block_candidates_complete. Qed.
+
+Theorem iiv_block_structures_nodup :
+  forall (A : Type) (cmp : A -> A -> comparison) (names : list A) (base : list (list A)) (offset : nat),
+    NoDup names -> NoDup (map snd (block_structure_candidates cmp names base offset)).
+Proof. exact block_candidates_nodup. Qed.
+
+(* td_exhaustive_no_of_etas: the sets of etas to remove are exactly the non-empty sub-sequences of the eta names,
+   2^n - 1 candidates numbered from 1+offset *)
+Theorem iiv_no_of_etas_exact :
+  forall (A : Type) (names : list A) (offset : nat) (s : list A),
+    In s (map snd (no_of_etas_candidates names offset)) <-> Subseq s names /\ s <> [].
+Proof. exact no_of_etas_exact. Qed.
+
+Theorem iiv_no_of_etas_count :
+  forall (A : Type) (names : list A) (offset : nat), length (no_of_etas_candidates names offset) = 2 ^ length names - 1.
+Proof. exact no_of_etas_count. Qed.
+
+(* iovsearch wf_etas_removal: candidates i, i+1, ... one per given subset; with the IOV parameters it removes exactly
+   the non-empty PROPER sub-sequences *)
+Theorem iov_removal_numbering :
+  forall (A : Type) (subsets : list (list A)) (i : nat),
+    map fst (removal_candidates subsets i) = seq i (length subsets) /\ map snd (removal_candidates subsets i) = subsets.
+Proof. exact removal_split. Qed.
+
+Theorem iov_removal_exact :
+  forall (A : Type) (names : list A) (i : nat) (s : list A),
+    In s (map snd (removal_candidates (non_empty_proper_subsets names) i)) <->
+    Subseq s names /\ s <> [] /\ length s < length names.
+Proof. exact iov_removal_exact. Qed.
+
+(* least_number_of_transformations(tool='modelsearch') returns a SMALLEST sufficient set: for all PK spaces a (the
+   model's features) and b (no `*` in PERIPHERALS modes) it returns exactly one transformation for each of the
+   categories ABSORPTION / ELIMINATION / TRANSITS / PERIPHERALS(drug) / LAGTIME in which a's features are not offered
+   by b (and b offers something), nothing else; and every set of feature keys that has a transformation for each of
+   those categories -- which any set bringing a into b must have, a transformation changing one category only -- is
+   at least as large. *)
+Theorem lnt_is_smallest :
+  forall a b : mf,
+    wf_lnt_space a = true -> wf_lnt_space b = true ->
+    exists items, lnt_modelsearch a b = Ok items /\
+      length items = length (needed_categories a b) /\
+      (forall i, In i items -> In (item_cat i) (needed_categories a b)) /\
+      (forall ks : list key, covers ks (needed_categories a b) -> length items <= length ks).
+Proof. exact lnt_smallest_lemma. Qed.
